@@ -57,6 +57,10 @@ class HandleList(PList):
             f[nm] = NArr(shape, [Sym(z3.simplify(z3.Select(c, iz)), k) for c in cs], k, dt)
         return Obj(self.cls_, f)
 
+    def __pyvc_copy__(self, eng):
+        """list(h) / h.copy() / copy.copy(h): a new list of the same value objects"""
+        return HandleList(self.cls_, self.fixed, self.scal, self.vecs, self.n)
+
     def col(self, name):
         return self.scal[name][0]
 
